@@ -1524,6 +1524,62 @@ class Program:
                 break
         return out
 
+    def value_slice(self, f, op, depth=10, _stack=()):
+        """backward data slice of a value across crate functions: -> (short names of the calls met, parameter numbers of f met).
+        A call to a crate function is followed only through the parameters that feed *its* result (its own slice), so a combiner that ignores one of
+        its inputs does not count as carrying it; calls into other crates are assumed to use all their arguments."""
+        calls, params = set(), set()
+        seen = set()
+
+        def go(g, o, d):
+            if d < 0:
+                return
+            t = o[0]
+            if t == "proj":
+                go(g, o[1], d)
+            elif t == "arg":
+                params.add(o[1])
+            elif t == "call":
+                c = o[1]
+                k_ = (c.fn.id, c.bb)
+                if k_ in seen:
+                    return
+                seen.add(k_)
+                calls.add(short_path(c.best))
+                use = None
+                if c.best in self.fns and c.best not in _stack and len(_stack) < 4:
+                    use = self.result_params(c.best, _stack + (c.best,))
+                for i, a in enumerate(c.args[:8]):
+                    if use is None or (i + 1) in use:
+                        go(c.fn, c.fn.origin(a), d - 1)
+            elif t == "aggr":
+                for a in o[1].get("ops", [])[:16]:
+                    go(g, g.origin(a), d - 1)
+            elif t == "multi":
+                for x in o[2]:
+                    go(g, x, d - 1)
+            elif t == "bin":
+                for x in o[2:4]:
+                    if isinstance(x, tuple):
+                        go(g, x, d - 1)
+            elif t == "un":
+                go(g, o[2], d - 1)
+        go(f, f.origin(op), depth)
+        return calls, params
+
+    def result_params(self, fid, _stack=()):
+        """parameter numbers (1-based) of a crate function that feed its result"""
+        memo = self.__dict__.setdefault("_result_params", {})
+        if fid in memo:
+            return memo[fid]
+        h = self.fns[fid]
+        _, ps = self.value_slice(h, {"l": 0}, 10, _stack)
+        # an `&mut` parameter written through is an output, not modelled here: keep every parameter then
+        if not ps or any("&mut" in h.locals[i] for i in range(1, h.arg_count + 1)):
+            ps = set(range(1, h.arg_count + 1))
+        memo[fid] = ps
+        return ps
+
     def family(self, fid):
         """the bodies that make up function fid for a rule that reads "everything written inside it": the function, its closures and promoted
         constants, and the same for every helper that was spliced into it"""
